@@ -184,7 +184,18 @@ func runC03(c *Ctx) {
 	var devLocal *ssa.Alloc // the oci.LinuxDevice local
 	toOCIcalls := c.callsTo(apply, false, "cdi", "(*DeviceNode).toOCI")
 	for _, tc := range toOCIcalls {
-		r.Check("C03.3", "toOCI-of-filled", filled != nil && tc.Common().Args[0] == filled, c.pos(tc), "the OCI device is built from the same node object that fillMissingInfo completed")
+		same := filled != nil && tc.Common().Args[0] == filled
+		if !same && filled != nil {
+			// another wrapper around the same node object
+			under := func(v ssa.Value) string {
+				ps := ir.PathStrings(c.U.Extend(c.U.PathsOf(v), ir.FieldByName(c.U.NamedType("cdi", "DeviceNode"), "DeviceNode")))
+				sort.Strings(ps)
+				return strings.Join(ps, "|")
+			}
+			a, b := under(filled), under(tc.Common().Args[0])
+			same = a != "" && a == b && strings.HasPrefix(a, "local:")
+		}
+		r.Check("C03.3", "toOCI-of-filled", same, c.pos(tc), "the OCI device is built from the same node object that fillMissingInfo completed")
 		if v := tc.Value(); v != nil && v.Referrers() != nil {
 			for _, ref := range *v.Referrers() {
 				if st, ok := ref.(*ssa.Store); ok {
